@@ -5,17 +5,16 @@
 package builder
 
 import (
+	"regexp"
+	"strings"
+
 	"github.com/roddhjav/apparmor.d/pkg/prebuild"
-	"github.com/roddhjav/apparmor.d/pkg/util"
 )
 
 var (
-	regHotfix = util.ToRegexRepl([]string{
-		`Cx`, `cx`,
-		`PUx`, `pux`,
-		`Px`, `px`,
-		`Ux`, `ux`,
-	})
+	// An exec mode stands after the blank that ends the path, possibly behind
+	// other access letters, and is followed by ',' or a blank ('->').
+	regHotfix = regexp.MustCompile(`(\s[rwmlkai]*)(Cx|PUx|Px|Ux)([,\s])`)
 )
 
 type Hotfix struct {
@@ -32,5 +31,5 @@ func init() {
 }
 
 func (b Hotfix) Apply(opt *Option, profile string) (string, error) {
-	return regHotfix.Replace(profile), nil
+	return regHotfix.ReplaceAllStringFunc(profile, strings.ToLower), nil
 }
